@@ -147,6 +147,11 @@ class Runner:
         self.emit(w, "w_rest", ok=bool(r.get("ok")), busy=bool(r.get("busy")), sql=sql[:40])
         return r
 
+    def kill(self, w):
+        """the writer process dies (SIGKILL) in whatever state it is: its locks are gone, a journal may stay behind"""
+        self.writer(w).kill()
+        self.emit(w, "w_rest", ok=False, busy=False, sql="(killed)")
+
     def cursor(self, w, open_=True):
         r = self.writer(w).call(cmd="open_cursor" if open_ else "close_cursor", sql="SELECT * FROM t")
         self.emit(w, "w_rest", ok=bool(r.get("ok")), busy=bool(r.get("busy")), sql="cursor")
